@@ -28,6 +28,7 @@ RULE = (
     "metadata overrides -> projection / exclusion -> per-timestamp expansion (C15 model) - rendered through the same "
     "writer; stream/JSON outputs are read back and compared by deep observation. Non-trivial = invocation with >=1 "
     "bad source or a selector/slice that keeps 0 < k < n records; distinct by case digest."
+    " Also: gzip sources truncated in the compressed domain, CSV output compared with rows assembled without the repository writer, selection on the often-unset _source field."
 )
 ASSUMPTIONS = [
     "-c 0 means 'no limit' (pinned by the repository's own tests)",
